@@ -1,8 +1,17 @@
 (* Run.C09 — driver for the generated correspondence cases of C09. *)
-From Coq Require Import ZArith Bool String Ascii List.
+From Coq Require Import ZArith Bool String Ascii List Uint63 PArray.
 From JMCV Require Import Model.Lit Run.Common.
 Import ListNotations.
 Open Scope Z_scope.
+
+(* Long code point lists are written by the harness as primitive arrays of primitive integers
+   (`ua [| 104; 105 | 0 |]%uint63`): Coq parses those several times faster than a `list Z` of numerals. *)
+Fixpoint arr_go (n : nat) (i : int) (a : array int) : str :=
+  match n with
+  | O => nil
+  | S n' => cons (Uint63.to_Z (PArray.get a i)) (arr_go n' (Uint63.add i 1%uint63) a)
+  end.
+Definition ua (a : array int) : str := arr_go (Z.to_nat (Uint63.to_Z (PArray.length a))) 0%uint63 a.
 
 (* what the real compiler did with the case *)
 Inductive outcome :=
@@ -17,13 +26,20 @@ Record case := mkCase {
   c_k : carrier;
   c_cs : list ctx;         (* outermost first *)
   c_np : list Z;           (* non-ASCII code points of the value that Python deems non-printable *)
+  c_names : list (str * Z); (* the \N{name} names of the literal that Python's unicodedata knows, with their code points *)
   c_real : outcome
 }.
 
 Definition pr_of (np : list Z) (c : Z) : bool := negb (memz c np).
 
+Fixpoint nm_of (t : list (str * Z)) (n : str) : option Z :=
+  match t with
+  | [] => None
+  | (k, v) :: r => if str_eqb k n then Some v else nm_of r n
+  end.
+
 Definition model_out (c : case) : res str :=
-  compile_lit (pr_of (c_np c)) (c_q c) (c_raw c) (c_k c) (c_cs c).
+  compile_lit (nm_of (c_names c)) (pr_of (c_np c)) (c_q c) (c_raw c) (c_k c) (c_cs c).
 
 Definition agree (m : res str) (r : outcome) : bool :=
   match m, r with
@@ -69,8 +85,8 @@ Definition emit_pinned (pr : Z -> bool) (k : carrier) (s : str) : res str :=
 Definition bt_pinned_modelled (raw : str) : bool :=
   negb (occurs [34; 34; 34] raw) && negb (match split_last raw with Some (_, c) => c =? 34 | None => false end).
 Definition model_out_pinned (c : case) : res str :=
-  rbind (if c_q c =? 96 then (if bt_pinned_modelled (c_raw c) then decode_bt_pinned (c_raw c) else Unmodelled)
-         else decode_pinned (c_q c) (c_raw c))
+  rbind (if c_q c =? 96 then (if bt_pinned_modelled (c_raw c) then decode_bt_pinned (nm_of (c_names c)) (c_raw c) else Unmodelled)
+         else decode_pinned (nm_of (c_names c)) (c_q c) (c_raw c))
         (fun s => rmap (wrap_pinned (c_cs c)) (emit_pinned (pr_of (c_np c)) (c_k c) s)).
 
 Definition case_ok_pinned (c : case) : bool := agree (model_out_pinned c) (c_real c).
